@@ -12,7 +12,7 @@ import (
 	"verif.local/sim/simcheck"
 )
 
-var zooValueKinds = []string{"int", "int", "str", "bytes", "float", "bool", "list", "tuple", "dict", "set", "nested", "shared", "big", "strlen", "sizes", "sizes", "bigdict", "bigset", "tupslice", "tupslice", "idx1000", "idx1000", "floatspecial", "memo255", "numtype", "booltype", "cyclicdict", "cyclic"}
+var zooValueKinds = []string{"int", "int", "str", "bytes", "float", "bool", "list", "tuple", "dict", "set", "nested", "shared", "big", "strlen", "sizes", "sizes", "bigdict", "bigset", "tupslice", "tupslice", "idx1000", "idx1000", "floatspecial", "memo255", "numtype", "booltype", "strbytes", "strbytes", "cyclicdict", "cyclic"}
 
 // c08Gen: a "function zoo" project plus an `all` target depending on everything.
 func c08Gen(r *rand.Rand, tier string) any {
